@@ -150,6 +150,11 @@ impl<C: Cursor> Cursor for BoundsCursor<C> {
         if self.bounds == Bounds::BeforeStart {
             self.seek_to_first()?;
             self.next()?;
+        } else if self.bounds == Bounds::AfterEnd || self.cursor.key().is_none() {
+            // The target lies beyond the end bound (or beyond the last key).  Park the underlying
+            // cursor just past the end bound so that a subsequent prev() yields the last key
+            // within the bounds rather than a key beyond them.
+            self.seek_to_last()?;
         }
         Ok(())
     }
